@@ -278,7 +278,7 @@ func init() {
 		Strategy string `json:"strategy"`
 		Actors   int    `json:"actors"`
 	}
-	vh.AddPart("C03", "recovery-interleavings", "sim", vh.Opts{Shards: 10, TimeoutS: 400},
+	vh.AddPart("C03", "recovery-interleavings", "sim", vh.Opts{NoConfirm: true, Shards: 10, TimeoutS: 400},
 		func(e *vh.Env) []c03Exp {
 			var cs []c03Exp
 			for _, st := range allStrategies {
